@@ -25,6 +25,11 @@ TABLE = {
             "Held on the generated gap-pattern cases: every event (kind, bytes, offset, line number, separators, final byte count) equals the model's, under slice, tiny-buffer reader and a third strategy, and in rg's text output.",
             "The per-line match verdicts come from the C01 oracle; context kind is left open where a line is both after- and before-context.",
             "DESIGN.md §3 C03"),
+    "C13": (True, "exploration",
+            "runtime monitoring: flattened Sink event streams of the multi-line strategies and rg -U stdout checked against a whole-input reference model (successive leftmost matches via the regex engine with look-around over the full input, mapped to covered lines, then the C03 grep model)",
+            "Held on the generated multi-line cases (patterns crossing lines, anchors and word boundaries next to the terminator, branches that start where the previous match ended, empty matches, dotall, CRLF, inversion, context): reported lines = covered lines, each once, in order.",
+            "Block partition is not compared. Cases where a line's only coverage is an empty match strictly inside its CRLF terminator are skipped as unsettled by the statement.",
+            "DESIGN.md §3 C13"),
     "C16": (True, "fault_enumeration",
             "runtime monitoring with fault injection: scripted Sink (false / Err at event k) and scripted Read (error / Interrupted at read j) enumerated over every k and j of each case, logs checked offline for the prefix relation; rg -m N vs the grep model",
             "For each generated case every stopping point of the result stream and every read index is enumerated (fully for logs up to the tier's bound, sampled with boundaries beyond); prefix-ness, exactly-one-finish-after-stop, no-finish-after-error and error propagation held on all of them.",
